@@ -30,7 +30,7 @@ BUDGET = {
     "quick": {"cases": 1200, "seconds": 90, "shards": 8},
     "thorough": {"cases": 24000, "seconds": 900, "shards": 16},
 }
-REQUIRED_OBS = ["loaded_snapshot_compared", "loaded_predictions_compared", "original_unaltered_checked", "fresh_interpreter_loads", "same_path_resave_checked", "asymmetric_matrix_cases",
+REQUIRED_OBS = ["loaded_snapshot_compared", "loaded_predictions_compared", "original_unaltered_checked", "fresh_interpreter_loads", "same_path_resave_checked", "asymmetric_matrix_cases", "state_changed_between_saves",
                 "mode:pre", "mode:fly", "kind:supervised", "kind:semi", "kind:knn", "kind:unsup"]
 MIN_NONTRIVIAL = 100
 KINDS = ["supervised", "semi", "knn", "unsup"]
@@ -163,6 +163,28 @@ def check(case):
             if _plain(p0.value) != _plain(p2.value):
                 res.violate("load", "C19/loaded-predictions-differ", f"{kind}/{name}: original predicts {_plain(p0.value)}, loaded model {_plain(p2.value)}")
                 return res
+        # ---- history: the SAME model changes state in place (relevance flags by another predict / label propagation) and is saved
+        # again: the file must hold the state at the time of the second save
+        if kind == "unsup":
+            safe_call(m.propagate_labels)
+        else:
+            Xtr = np.array(case["X"], dtype=float)
+            safe_call(m.predict, Xtr, np.array(case["pre"]["I"], dtype=int)) if case["pre"] else safe_call(m.predict, Xtr)
+        S1 = forest_snapshot(m)
+        if snapshot_diff(S1, S0) is not None:
+            res.see("state_changed_between_saves")
+        s1 = safe_call(m.save, pkl)
+        m4 = build_model(kind)
+        l4 = safe_call(m4.load, pkl) if s1.ok else s1
+        if not l4.ok:
+            res.violate("load", f"C19/exception/load/{type(l4.exc).__name__}", f"{kind}/{name}: second save/load of the same model raised at {l4.where}")
+            return res
+        d = snapshot_diff(forest_snapshot(m4), S1)
+        if d:
+            stale = snapshot_diff(forest_snapshot(m4), S0) is None
+            res.violate("load", "C19/loaded-forest-differs/second-save-of-same-model",
+                        f"{kind}/{name}: after an in-place state change and a second save, the loaded model differs from the original: {d}" + (" (it equals the FIRST save: stale file content)" if stale else ""))
+            return res
         # ---- history: a DIFFERENT model of identical shape (training rows reversed) saved to the SAME path, loaded again
         case_b = dict(case)
         case_b["X"], case_b["Y"] = case["X"][::-1], case["Y"][::-1]
@@ -192,7 +214,9 @@ def check(case):
                 return res
         if case.get("fresh"):
             qf, out = os.path.join(tmp, "q.json"), os.path.join(tmp, "out.json")
+            p_now = _predict(case, m)          # the model's behaviour at the time of this save (labels may have been propagated)
             safe_call(m.save, pkl)
+            S_saved = forest_snapshot(m)
             json.dump({"Q": case["Q"], "IQ": case["pre"]["IQ"] if case["pre"] else None}, open(qf, "w"))
             env = dict(os.environ)
             try:
@@ -212,12 +236,12 @@ def check(case):
                 if "knn" in S1:
                     S1["knn"] = tuple(S1["knn"])
                 # the relevance flags may have advanced by the extra predict in the fresh process: compare S0 taken after predict
-                d = snapshot_diff(S1, S0)
+                d = snapshot_diff(S1, S_saved)
                 if d:
                     res.violate("load", "C19/loaded-forest-differs", f"{kind}/{name}: forest loaded in a fresh interpreter differs: {d}")
                     return res
-                if p0.ok and doc.get("pred_ok") and doc["pred"] != _plain(p0.value):
-                    res.violate("load", "C19/loaded-predictions-differ", f"{kind}/{name}: fresh interpreter predicts {doc['pred']}, original {_plain(p0.value)}")
+                if p_now.ok and doc.get("pred_ok") and doc["pred"] != _plain(p_now.value):
+                    res.violate("load", "C19/loaded-predictions-differ", f"{kind}/{name}: fresh interpreter predicts {doc['pred']}, original {_plain(p_now.value)}")
                     return res
             elif pr is not None:
                 res.see("fresh_interpreter_failed_to_run")
